@@ -573,6 +573,12 @@ func (w *w4World) genOp(mapShare int) *w4Op {
 			in.Create = c.Intn(2, "pre_create") == 0
 			in.Name = fmt.Sprintf("__builtin%d", -in.ID)
 			in.Typ = format.MetricEvent
+			if c.Intn(3, "pre_namespace") == 1 {
+				// built-in namespaces have negative ids as well and, like every namespace, keep their name
+				in.ID = -5 - int64(c.Intn(2, "pre_ns_id"))
+				in.Name = fmt.Sprintf("__ns%d", -in.ID)
+				in.Typ = format.NamespaceEvent
+			}
 			if kv, ok := w.latestOf(in.ID); ok {
 				in.OldVer = kv.ver
 			}
@@ -593,6 +599,13 @@ func (w *w4World) genOp(mapShare int) *w4Op {
 			in.Name = names[c.Intn(len(names), "newname")]
 			if kv.id < 0 {
 				in.Name = fmt.Sprintf("__builtin%d_%d", -kv.id, c.Intn(2, "prename"))
+			}
+		case 4: // names another entity's current version instead of its own
+			if n := len(w.seq.Ents); n > 1 {
+				o := w.seq.Ents[c.Intn(n, "foreign_version_of")]
+				if o.ID != kv.id {
+					in.OldVer = o.Ver
+				}
 			}
 		case 2:
 			in.DelAt = uint32(w.now.Unix())
